@@ -4,7 +4,7 @@ import common
 
 def gen_cases(res, rng, tier):
     cases = []
-    n_rand = 30 if tier == "quick" else 200
+    n_rand = 30 if tier == "quick" else 600
     pats = [bytes([0xff] * 12), bytes([0x00] * 12), bytes([0xaa] * 12), bytes([0x55] * 12)]
     for k in range(0, 96, 7):  # walking one
         b = bytearray(12)
